@@ -532,13 +532,22 @@ def r01h(model, ctx):
         for loop, name, aug in _accumulator_loops(fn):
             if name not in accs:
                 continue
-            v = unparse(aug.value)
+            # the step, with the loop body's locals substituted, must be the width of the part placed in this iteration
+            from ..engine.norm import poly as _p, poly_sub as _ps
             tgt = unparse(loop.target)
-            ok = v in (f"len({tgt})", "width", "len(const)", "part_len")
-            if v == "width":
-                # width must be len(part) assigned in the same loop body
-                ok = any(isinstance(s, ast.Assign) and unparse(s.targets[0]) == "width" and
-                         unparse(s.value) == f"len({tgt})" for s in loop.body)
+            bp = run_paths(loop.body)
+            v = unparse(aug.value)
+            ok = len(bp) >= 1
+            for p_ in bp:
+                e_ = p_.env.get(name)
+                if e_ is None:
+                    ok = False
+                    continue
+                step = _ps(_p(e_), _p(ast.Name(id=name, ctx=ast.Load())))
+                atoms = list(step.items())
+                ok = ok and len(atoms) == 1 and atoms[0][1] == 1 and len(atoms[0][0]) == 1 and \
+                    atoms[0][0][0] in (f"len({tgt})", f"len(Const.cast({tgt}))")
+                v = unparse(e_)
             ctx.check(ok, "R-01h", f"{ref.split('::')[1]}:{name}:step", f"advances by {v}",
                       f"accumulator `{name}` advances by {v}, expected the width of the part just placed",
                       f"{rel}:{aug.lineno}")
